@@ -1,6 +1,8 @@
 package compiler
 
 import (
+	"sort"
+
 	"github.com/smarthome-go/homescript/v3/homescript/analyzer/ast"
 	"github.com/smarthome-go/homescript/v3/homescript/errors"
 	pAst "github.com/smarthome-go/homescript/v3/homescript/parser/ast"
@@ -126,7 +128,16 @@ func (self *Compiler) compileProgram(
 		Singletons: make(map[string]string),
 	}
 
-	for moduleName, module := range program {
+	// The modules are visited in the order of their names: the mangled names (lambdas are numbered across modules)
+	// and the order in which the modules are initialized must not depend on the iteration order of the map.
+	moduleNames := make([]string, 0, len(program))
+	for moduleName := range program {
+		moduleNames = append(moduleNames, moduleName)
+	}
+	sort.Strings(moduleNames)
+
+	for _, moduleName := range moduleNames {
+		module := program[moduleName]
 		self.currModule = moduleName
 		self.modules[self.currModule] = make(map[string]*Function)
 
@@ -213,7 +224,8 @@ func (self *Compiler) compileProgram(
 
 	moduleAnnotations := make(ModuleAnnotations)
 
-	for moduleName, module := range program {
+	for _, moduleName := range moduleNames {
+		module := program[moduleName]
 		self.currModule = moduleName
 
 		// Compile all functions
@@ -260,12 +272,12 @@ func (self *Compiler) compileProgram(
 			self.currFn = InitFunctionIdent
 			self.currModule = entryPointModule
 
-			for moduleName, otherInit := range initFns {
+			for _, moduleName := range moduleNames {
 				if moduleName == entryPointModule {
 					continue
 				}
 
-				self.insert(newOneStringInstruction(Opcode_Call_Imm, otherInit), mainFnSpan)
+				self.insert(newOneStringInstruction(Opcode_Call_Imm, initFns[moduleName]), mainFnSpan)
 			}
 
 			self.insert(newPrimitiveInstruction(Opcode_Return), mainFnSpan)
